@@ -482,37 +482,37 @@ type probeResult struct {
 // probe opens a fresh connection and reads both mailboxes with SELECT + UID FETCH 1:* (UID FLAGS).
 func (w *world) probe() *probeResult {
 	p := w.dial()
-	pr := &probeResult{}
-	for m := 0; m < 2; m++ {
-		out, resps, closed := w.sendOn(p, fmt.Sprintf("p%d SELECT %s\r\np%df UID FETCH 1:* (UID FLAGS)\r\n", m, mbName[m], m))
-		pr.Raw += string(out)
-		if closed {
-			pr.Bad = "probe connection closed"
-			return pr
-		}
-		pr.Exists[m] = -1
-		okN := 0
-		for _, r := range resps {
-			switch {
-			case r.Tag != "*":
-				if strings.HasPrefix(strings.ToUpper(r.Text), "OK") {
-					okN++
-				}
-			case r.Kind() == "EXISTS":
-				n, _ := r.Num()
-				pr.Exists[m] = int(n)
-			case r.Kind() == "FETCH":
-				n, _ := r.Num()
-				uid, del, ok := parseFetch(r)
-				if !ok || int(n) != len(pr.MB[m])+1 {
-					pr.Bad = fmt.Sprintf("probe: unexpected FETCH line %q", r.Text)
-				}
-				pr.MB[m] = append(pr.MB[m], msg{uid, del})
+	pr := &probeResult{Exists: [2]int{-1, -1}}
+	out, resps, closed := w.sendOn(p, "p0 SELECT A\r\np0f UID FETCH 1:* (UID FLAGS)\r\np1 SELECT B\r\np1f UID FETCH 1:* (UID FLAGS)\r\n")
+	pr.Raw = string(out)
+	if closed {
+		pr.Bad = "probe connection closed"
+		return pr
+	}
+	m, okN := 0, 0
+	for _, r := range resps {
+		switch {
+		case r.Tag != "*":
+			if strings.HasPrefix(strings.ToUpper(r.Text), "OK") {
+				okN++
 			}
+			if r.Tag == "p0f" {
+				m = 1
+			}
+		case r.Kind() == "EXISTS":
+			n, _ := r.Num()
+			pr.Exists[m] = int(n)
+		case r.Kind() == "FETCH":
+			n, _ := r.Num()
+			uid, del, ok := parseFetch(r)
+			if !ok || int(n) != len(pr.MB[m])+1 {
+				pr.Bad = fmt.Sprintf("probe: unexpected FETCH line %q", r.Text)
+			}
+			pr.MB[m] = append(pr.MB[m], msg{uid, del})
 		}
-		if okN != 2 {
-			pr.Bad = fmt.Sprintf("probe: commands not completed OK: %q", out)
-		}
+	}
+	if okN != 4 {
+		pr.Bad = fmt.Sprintf("probe: commands not completed OK: %q", out)
 	}
 	p.CloseWrite()
 	return pr
@@ -990,14 +990,23 @@ func execute(cfg config, hist []op, start *state, checkFrom int, vb io.Writer, s
 		st = start.clone()
 	}
 	perStep = make([][]finding, len(hist))
-	for i, o := range hist {
-		out, resps, closed := w.send(o.S, o.wire(fmt.Sprintf("a%d", i)))
+	for i := 0; i < len(hist); i++ {
+		o := hist[i]
 		if i < checkFrom {
-			if closed {
+			// Prefix: only sent. Consecutive commands of one session travel in one segment (the
+			// server handles them in order and nobody else acts in between, so this is the same
+			// history); IDLE and DONE are always sent on their own.
+			raw := o.wire(fmt.Sprintf("a%d", i))
+			for o.K != kIdle && o.K != kDone && i+1 < checkFrom && hist[i+1].S == o.S && hist[i+1].K != kIdle && hist[i+1].K != kDone {
+				i++
+				raw += hist[i].wire(fmt.Sprintf("a%d", i))
+			}
+			if _, _, closed := w.send(o.S, raw); closed {
 				run.EngineError("connection closed while replaying the prefix of %s", histString(hist))
 			}
 			continue
 		}
+		out, resps, closed := w.send(o.S, o.wire(fmt.Sprintf("a%d", i)))
 		var pr *probeResult
 		if !closed {
 			// (a connection that died in a panic may have left a mailbox locked: nothing to probe)
@@ -1545,7 +1554,8 @@ func main() {
 	}
 
 	// ---- evidence ----
-	if total.noExpWithPendingX == 0 || total.heldBack == 0 || total.staleCmd == 0 || total.expunge == 0 || total.noopAfterUpdates == 0 || total.idleLines == 0 {
+	if run.NumViolations() == 0 && (total.noExpWithPendingX == 0 || total.heldBack == 0 || total.staleCmd == 0 || total.expunge == 0 || total.noopAfterUpdates == 0 || total.idleLines == 0) {
+		// (with violations the search is pruned and these counters mean nothing)
 		run.EngineError("vacuous run: %+v", total)
 	}
 	var nt int64
@@ -1615,10 +1625,15 @@ func (s *search) run(maxDepth, workers int, deadline, start time.Time) {
 	// roots: the set-up commands are real commands, judged like any other
 	for i, h := range s.roots {
 		st, per := execute(s.cfg, h, nil, 0, nil, &s.stats)
+		bad := false
 		for j, fs := range per {
 			if len(fs) > 0 {
 				s.record(fs, h[:j+1], &node{rootIdx: i})
+				bad = bad || prunes(fs)
 			}
+		}
+		if bad {
+			continue // a violation inside the set-up: reported, nothing is built on it
 		}
 		s.offer(canon(st), &node{st: st, rootIdx: i, order: uint64(i), total: len(h)})
 	}
